@@ -101,7 +101,7 @@ pub const W_DUP: [usize; 10] = [36, 38, 40, 50, 88, 92, 92, 95, 98, 99];
 pub fn graph_scenario(idx: usize, rng: &mut Rng, o: &GraphOpts, family: &str) -> World {
     let mut w = World::new(o.enc, o.obs, idx, family);
     w.log_patches = o.log_patches;
-    w.desc_actors = family == "ids" || family == "idshi";
+    w.desc_actors = family == "ids" || family == "idshi" || family == "longgraph";
     w.hi_actors = family == "idshi";
     let mut next_actor: u8 = 1;
     let n0 = 2 + rng.below(2);
@@ -240,6 +240,19 @@ pub fn graph_scenario(idx: usize, rng: &mut Rng, o: &GraphOpts, family: &str) ->
         }
         if next_actor > 17 {
             break;
+        }
+    }
+    // C10: closing retrievals for every single-change have-set (and a few pairs) on every replica
+    if family == "longgraph" && !w.dead {
+        for r in 0..w.n() {
+            let app = applied_of(&w, r);
+            for (k, h) in app.iter().enumerate().take(48) {
+                let mut hs = vec![w.known[h].hash()];
+                if k % 5 == 4 {
+                    hs.push(w.known[&app[rng.below(app.len())]].hash());
+                }
+                w.probe_getchanges(r, &hs);
+            }
         }
     }
     // closing historical reads at every single change and at pairs of concurrent changes
